@@ -24,10 +24,12 @@ from ..engine import EventLog, Outcome, SimTimeout, bump, h64, library_site, rai
 PID = "C07"
 RULE = (
     "Each run builds a pool of 2-3 labelled float64 matrices (3-10 rows, shared dimension 1-4, styles incl. exact"
-    " zeros / 1e-21..1e-19 magnitudes / denormals) and 2-4 free vectors, then executes a seeded history of 6-40 calls"
+    " zeros / 1e-21..1e-19 magnitudes / denormals; C, Fortran, strided and column-sliced memory layouts whose owning"
+    " buffers are digested) with caller-owned distance matrices and 2-4 free vectors, then executes a seeded history of 6-40 calls"
     " that share those buffers: dist(metric, a, b) over all 47 identifiers via the registry or via OPF(distance=..)"
     " .distance_fn with arguments that are free vectors, row views of the matrices or the same object twice;"
-    " fit / fit+predict / get_distances of the four model kinds; pre_compute_distance; prune; split;"
+    " fit / fit+predict / get_distances of the four model kinds; fits through a caller-supplied pre_distances matrix;"
+    " repeated fit/predict of two persistent model objects; pre_compute_distance; prune; split;"
     " split_with_index; merge; normalize; opf_accuracy; confusion_matrix; purity; the caller rewriting one of its own"
     " buffers in place between calls. Arm `fresh` re-evaluates the last calls of the history in a fresh interpreter."
     " Non-trivial: >= 2 calls touched the"
